@@ -20,6 +20,8 @@ int verif_hact[5];    /* pre-state activity of each state (multiplex HMMs) */
 size_t verif_flen, verif_foff, verif_woff, verif_bufsz, verif_alloc_limit;
 /* C16: map view of the dictionary's word hash table at the keys one dict_add_word call touches */
 int verif_base_present, verif_base_wid, verif_dup_present, verif_dup_wid, verif_baselen, verif_entered_cnt;
+/* C14 */
+int verif_snlen, verif_js_sf, verif_js_dur, verif_js_frate; double verif_js_start;
 /* C20 */
 size_t verif_keylen;  /* length of the NUL-terminated key handed to key2hash */
 #define SPEC_UP(c) (((c) >= 'a' && (c) <= 'z') ? (char)((c) - 32) : (char)(c))
